@@ -651,7 +651,7 @@ class Interp(ExprMixin, LoopMixin, CallMixin):
         if st.cause is not None:
             exc.cause = self.eval(st.cause)
         exc.raise_node = st
-        self.event('raise', st, exc=exc)
+        self.event('raise', st, exc=exc, locals=dict(self.frames[-1].locals))
         raise Raised(exc)
 
     def _to_exc(self, v, node):
